@@ -386,13 +386,17 @@ def listening_of_pid(pid):
 # Deployment
 # --------------------------------------------------------------------------------------------
 
-_live_lock = threading.Lock()
+_live_lock = threading.RLock()   # re-entrant: the signal handler may interrupt the main thread inside it
 _live = set()
 _run_counter = [0]
+_shutting_down = [False]
 
 
 def _kill_all_live():
+    """Stop every live deployment.  Once called, no new process can be spawned (process creation
+    and registration happen under _live_lock and check the flag)."""
     with _live_lock:
+        _shutting_down[0] = True
         deps = list(_live)
     for d in deps:
         try:
@@ -522,7 +526,7 @@ class Deployment:
     strict=False: never raise for that; inspect .ready / .alive() / .listening() / .exit_codes().
     Infrastructure errors (port taken) are retried with fresh ports in both modes."""
 
-    def __init__(self, spec, strict=True, ready_timeout=10.0, keep=False, start=True, settle=0.0):
+    def __init__(self, spec, strict=True, ready_timeout=6.0, keep=False, start=True, settle=0.0):
         self.spec = dict(spec)
         self.strict = strict
         self.ready_timeout = ready_timeout
@@ -552,9 +556,16 @@ class Deployment:
                 last = e
                 self._teardown(remove=True)
                 time.sleep(0.1 * (attempt + 1))
+            except DeploymentError:
+                raise
+            except BaseException:
+                self._teardown(remove=True)
+                raise
         raise InfraError("deployment could not get free ports after retries: %s" % (last,))
 
     def _start_once(self):
+        if _shutting_down[0]:
+            raise T2Error("driver is shutting down")
         _ensure_cache()
         with _live_lock:
             _run_counter[0] += 1
@@ -577,14 +588,12 @@ class Deployment:
         env.pop("SSLKEYLOGFILE", None)
         slog = open(self.dir + "/server.log", "wb")
         self._logf.append(slog)
-        self.server = subprocess.Popen([SERVER_BIN, self.dir + "/server.json", "debug"], stdin=subprocess.DEVNULL,
-                                       stdout=slog, stderr=subprocess.STDOUT, cwd=self.dir, env=env)
+        self.server = self._spawn([SERVER_BIN, self.dir + "/server.json", "debug"], slog, env, "server")
         self.server_pid = self.server.pid
         ok_s, why_s = self._wait_listening("server", self.ready_timeout)
         clog = open(self.dir + "/client.log", "wb")
         self._logf.append(clog)
-        self.client = subprocess.Popen([CLIENT_BIN, self.dir + "/client.json"], stdin=subprocess.DEVNULL,
-                                       stdout=clog, stderr=subprocess.STDOUT, cwd=self.dir, env=env)
+        self.client = self._spawn([CLIENT_BIN, self.dir + "/client.json"], clog, env, "client")
         self.client_pid = self.client.pid
         ok_c, why_c = self._wait_listening("client", self.ready_timeout)
         logs = self.logs()
@@ -599,7 +608,24 @@ class Deployment:
         if self.strict and not self.ready:
             tail = {w: logs[w][-800:] for w in logs}
             self._teardown(remove=not self.keep)
-            raise DeploymentError("deployment not ready: %s; logs=%r" % (self.ready_detail, tail))
+            e = DeploymentError("deployment not ready: %s; logs=%r" % (self.ready_detail, tail))
+            e.ready_detail = self.ready_detail
+            e.log_tails = tail
+            raise e
+
+    def _spawn(self, argv, log, env, which):
+        # creation + registration are atomic w.r.t. _kill_all_live(): a process either is never
+        # started or is reachable through a deployment in _live
+        with _live_lock:
+            if _shutting_down[0] or self._stopped:
+                raise T2Error("driver is shutting down; not starting " + which)
+            p = subprocess.Popen(argv, stdin=subprocess.DEVNULL, stdout=log, stderr=subprocess.STDOUT, cwd=self.dir, env=env)
+            if which == "client":
+                self.client = p
+            else:
+                self.server = p
+            _live.add(self)
+            return p
 
     def _proc(self, which):
         return self.client if which == "client" else self.server
@@ -629,7 +655,8 @@ class Deployment:
         self._teardown(remove=not self.keep)
 
     def _teardown(self, remove):
-        self._stopped = True
+        with _live_lock:
+            self._stopped = True
         for p in (self.client, self.server):
             if p is not None and p.poll() is None:
                 try:
